@@ -5,6 +5,10 @@ set -euo pipefail
 HERE="$(cd "$(dirname "$0")" && pwd)"
 REPO="${VERIF_REPO:-/repo}"
 cd "$HERE"
+# one build at a time: checks may be started in parallel and each of them builds first; the later ones wait here and then
+# find everything up to date (nothing is rewritten, so a check that is already running is not disturbed)
+exec 9>"$HERE/.build.lock"
+flock 9
 if [ "${1:-}" != "--no-gen" ]; then
   (cd "$HERE/harness" && PYTHONPATH="$REPO" PYTHONDONTWRITEBYTECODE=1 PYTHONHASHSEED=0 /venv/bin/python -B gen_constants.py)
 fi
